@@ -37,6 +37,7 @@ var (
 )
 
 var fqCmdRe = regexp.MustCompile(`(?m)^\$ fq (.*)$`)
+var fqRootLineRe = regexp.MustCompile(`(?m)\|\.(?:\{\}|\[\d+:\d+\]): (\S+) \((\w+)\)`)
 
 const repoFormatDir = "/repo/format"
 
@@ -72,6 +73,16 @@ func corpus() []corpusItem {
 				b, err := os.ReadFile(f)
 				if err != nil {
 					continue
+				}
+				// `$ fq dv file` (probe): the root line of the expected dump names the format, `|.{}: file (format) ...`
+				for _, m := range fqRootLineRe.FindAllStringSubmatch(string(b), -1) {
+					if _, err := reg.Group(m[2]); err != nil {
+						continue
+					}
+					if fmts[m[1]] == nil {
+						fmts[m[1]] = map[string]bool{}
+					}
+					fmts[m[1]][m[2]] = true
 				}
 				for _, m := range fqCmdRe.FindAllStringSubmatch(string(b), -1) {
 					args := strings.Fields(m[1])
